@@ -713,7 +713,8 @@ def c08_scope(res, pid, rng, tier):
                     fails.append({"kind": "anonymize_io raised", "exc": repr(e), "salt": cfg.salt, "lines": lp_})
                     continue
                 res.evaluations += 2
-                if op_[0].split()[-1] == op_[1].split()[-1]:
+                ix_ = [re.search(r"netconanRemoved(\d+)", o_) for o_ in op_]
+                if op_[0].split()[-1] == op_[1].split()[-1] or (ix_[0] and ix_[1] and ix_[0].group(1) == ix_[1].group(1)):
                     fails.append({"kind": "different secrets received the same replacement", "salt": cfg.salt, "lines": lp_, "outputs": op_})
         for e1, e2 in pairs9:
             l9 = ['secret "%s"\n' % e1, 'secret "%s"\n' % e2, 'secret "%s"\n' % e1]
